@@ -192,6 +192,27 @@ def tptp_validate(pid, suite):
     return extra
 
 
+def corpus_findings(pid, suite, detectors):
+    """extra(): known findings witnessed by corpus cases of `suite`: detectors = {origin: (class, predicate on impl line)}."""
+    def extra(tier, seed, outdir, broken, violations, findings_seen):
+        known = {k["class"]: k for k in load_known(pid) if "class" in k}
+        origins = (outdir / f"{suite}.origin").read_text().splitlines()
+        imps = (outdir / f"{suite}.impl").read_text().splitlines()
+        seen = []
+        for o, a in zip(origins, imps):
+            if o in detectors:
+                cls, pred = detectors[o]
+                if pred(a):
+                    if cls in known:
+                        findings_seen.append(known[cls]["what"])
+                        seen.append(cls)
+                    else:
+                        violations.append({"property": pid, "kind": "corpus witness fails and is not listed as known finding", "origin": o, "impl": a[:2000]})
+        return {"evaluations": len(detectors), "distinct_nontrivial": len(seen), "known_findings_reproduced": seen,
+                "samples": [f"corpus witness {o} -> class {c[0]}" for o, c in detectors.items()]}
+    return extra
+
+
 def replay(pid, path):
     doc = json.loads(Path(path).read_text())
     print(json.dumps(doc, indent=1)[:4000])
@@ -319,10 +340,10 @@ PROPS = {
         "assumptions": COMMON_ASSUME,
     },
     "C11": {
-        "suites": [("analyze", 1500, 40000), ("natural", 600, 10000)],
+        "suites": [("analyze", 1500, 40000), ("natural", 600, 10000), ("external", 400, 8000)],
         "rule": "seeded programs + random private-predicate sets; is_tight / has_private_recursion / is_regular vs the Lean model (explicit cycle test instead of petgraph)",
-        "level_text": "Partial: isCyclic_sound / not_tight_has_cycle (a reported cycle is a real cycle), choice_private_is_recursion, regular_iff (C08) proved; completeness of the "
-                      "cycle test and the external-task enforcement theorems are pending; the verdicts are tied by exact correspondence.",
+        "level_text": "Partial: external_ok_implies (problems are emitted only if every applicability condition holds; otherwise an error and nothing else), isCyclic_sound / not_tight_has_cycle "
+                      "(a reported cycle is a real cycle), choice_private_is_recursion, regular_iff (C08) proved; completeness of the cycle test is pending; verdicts and error kinds are tied by exact correspondence.",
         "level_note": PROOF_NOTE + " petgraph's is_cyclic_directed is replaced by an explicit reachability test in the model.",
         "technique": "Lean 4 proof (soundness of the cycle test) + differential correspondence",
         "design_ref": "DESIGN.md 6/C11",
@@ -330,7 +351,7 @@ PROPS = {
         "assumptions": COMMON_ASSUME,
     },
     "C19": {
-        "suites": [("strong", 400, 8000), ("break_eq", 1000, 20000)],
+        "suites": [("strong", 400, 8000), ("break_eq", 1000, 20000), ("external", 300, 6000)],
         "rule": "as C03 (all flag combinations) + break_equivalences_formula on seeded formulas with equivalences under universal prefixes",
         "level_text": "Full for decomposition and eq-break: independent_refutes, sequential_refutes, decomposition_invariant, break_equiv(_ht), families_invariant proved for all problems, "
                       "interpretations and assignments; the simplify flag reduces to C07 (map_equiv_all), whose classic part is partial.",
@@ -376,6 +397,41 @@ PROPS = {
         "technique": "Lean 4 proof (order lemmas on the standard domain, insertion-sort sortedness, binder characterisation) + text correspondence of the preamble and generated axioms",
         "design_ref": "DESIGN.md 6/C12",
         "trusted_base": COMMON_TRUST + ["hand transcription of the 15 preamble axioms into Lean propositions"],
+        "assumptions": COMMON_ASSUME,
+    },
+    "C02": {
+        "suites": [("external", 500, 10000), ("external_text", 150, 3000)],
+        "extra": corpus_findings("C02", "external", {
+            "corpus:missing_output": ("missing_output", lambda a: a.strip() == "()"),
+            "corpus:rename_clash": ("rename_clash", lambda a: a.count('(B iff (A (P "q_p" ((GV "V1"))))') >= 2),
+        }),
+        "rule": "external-equivalence tasks: the repo's example tasks (res/examples/external_equivalence, files chosen by Files::sort), hand-written corpus tasks, and seeded tasks from a role-aware "
+                "generator (input/output/private predicates, ranked bodies so that most programs are tight, placeholders of all sorts, specification sides, proof outlines with lemmas, definitions, "
+                "inductive lemmas; 1/5 deliberately violate an applicability condition) x all flags; ExternalEquivalenceTask::decompose vs Lean `externalProblems`: error kind or the full list of problems "
+                "(names, roles, formula trees), and the full TPTP text",
+        "level_text": "Partial: the whole pipeline (checks, tau*, placeholder replacement, completion, simplification, control translation, private renaming, outline, assembly, decomposition) is modelled and tied by "
+                      "exact correspondence; final_family_refutes (C19) is proved; the property is FALSE on the unchanged tree at two points, each with a kernel-checked counterexample theorem on the model and a "
+                      "corpus witness replayed on the implementation (known findings); ExternalRefutes (needs C04) is not proved.",
+        "level_note": PROOF_NOTE,
+        "technique": "Lean 4 (pipeline model, counterexample theorems by kernel evaluation, decomposition theorems) + end-to-end differential correspondence",
+        "design_ref": "DESIGN.md 6/C02",
+        "trusted_base": COMMON_TRUST,
+        "assumptions": COMMON_ASSUME + ["fixpoint simplification inside the pipeline is compared up to a pass bound of 64"],
+    },
+    "C13": {
+        "suites": [("external", 500, 10000)],
+        "extra": corpus_findings("C13", "external", {
+            "corpus:lemma_before_definition": ("lemma_before_definition", lambda a: a.startswith("((problem")),
+        }),
+        "rule": "as C02: tasks with proof outlines (lemmas with every direction annotation, definitions incl. malformed ones, inductive lemmas incl. induction variable bound inside F and negative start) "
+                "vs the Lean model of ProofOutline::from_specification / inductive_lemma / definition and of the outline part of the problem assembly",
+        "level_text": "Full for induction and sequencing: induction_sound (the two obligations imply F for every integer >= n, for every formula incl. rebinding of the induction variable), "
+                      "inductiveLemma_shape, definition_accepted_implies, outline_sequencing (lemma k's problems use the direction's axioms and the consequences of lemmas < k) proved; "
+                      "one literal-reading known finding (definition predicate may occur in an earlier lemma).",
+        "level_note": PROOF_NOTE,
+        "technique": "Lean 4 proof (integer induction + substitution lemma; fold invariants) + differential correspondence",
+        "design_ref": "DESIGN.md 6/C13",
+        "trusted_base": COMMON_TRUST,
         "assumptions": COMMON_ASSUME,
     },
 }
